@@ -23,7 +23,7 @@ def need_pi(atom, bondsum):
         if bondsum > NORMAL_VALENCES[el][-1]:
             return None
         return bondsum not in NORMAL_VALENCES[el]
-    if atom.iso is not None or atom.chir:
+    if atom.chir:
         return None
     used = bondsum + atom.h
     if atom.charge == 0:
